@@ -64,7 +64,12 @@ def case(spec, ctx):
         if got != states:
             ctx.fail("layout:arglist_state", f"arglist_state={got} expected sorted {states}", spec)
 
+    earlier = []  # (result object, snapshot of its values): must still hold after later evaluations
     for p in spec["points"]:
+        for obj, snap in earlier:
+            if not np.array_equal(np.asarray(obj.data, float), snap):
+                ctx.fail("earlier-result-changed", "a State returned by model() changed when the model was evaluated again "
+                                                   "(results alias internal storage)", spec)
         ref = oracle.ref_model(m, p)
         results = {}
         for cse, model in built.items():
@@ -85,6 +90,7 @@ def case(spec, ctx):
             if vals.shape != (len(states),):
                 ctx.fail("result-shape", f"{vals.shape}", spec)
             results[cse] = vals
+            earlier.append((out, np.asarray(out.data, float).copy()))
             for i, s in enumerate(states):
                 r, sc = ref[s]
                 if not oracle.close(vals[i], r, sc):
